@@ -332,6 +332,14 @@ def run(ck, fb, fbd):
     l = fns[("get_halfface_vertices", ("OpenVolumeMesh::HFH", "OpenVolumeMesh::HEH"))]
     for b, i, n in l.valid_rets():
         x = l.cn.s(n.get("x"))
+        if x in ("{}", "vector()", "std::vector<VH>()", "vector({})") or re.fullmatch(r"(std::)?vector(<[^>]*>)?\(\)|\{\}", x):
+            continue  # the miss answer
+        if x.startswith("get_halfface_vertices(P0, "):
+            # the start vertex alone does not put the halfedge on the halfface (its opposite, or a halfedge of a neighbouring
+            # face, starts on the halfface too): the delegation happens under a membership fact (F71)
+            fs_ = [(s_, p_) for s_, p_, c_ in l.cn.facts(b)]
+            member = any(p_ is True and (re.fullmatch(r"v\d+", s_) or ("P1" in s_ and "halfedges()" in s_)) for s_, p_ in fs_) or any(p_ is False and s_.startswith("!") and re.fullmatch(r"!v\d+", s_) for s_, p_ in fs_)
+            judge(member, l, n, "get_halfface_vertices(hf, he) delegates to the start-vertex form only under the fact that he is one of the halfedges of hf (facts %s)" % (fs_[:2] or "none"), "ghv3:member")
         if not x.startswith("get_halfface_vertices(P0, "):
             ck.cannot_judge("%s: get_halfface_vertices(hf, he) no longer delegates to the (hf, start vertex) form: rule K.match does not know this formulation - re-audit" % l.f.loc(n))
             continue
